@@ -51,11 +51,53 @@ def register(lib):
     lib.np["unique"] = LibFunc("np.unique", np_unique)
 
 
+PSQ = z3.Function("PSQ", z3.IntSort(), z3.BoolSort())      # PSQ(k): the integer k is a perfect square (k = m*m for an integer m)
+
+
+def is_perfect_square(k):
+    """PSQ(k) for an integer value k (concrete: decided; symbolic: the uninterpreted predicate the modf contract speaks about)"""
+    import math
+
+    from pyvc.sv import is_conc, norm
+    k = norm(k)
+    if is_conc(k):
+        k = int(k)
+        return k >= 0 and math.isqrt(k) ** 2 == k
+    return sv.SV(PSQ(z3.simplify(sv.znum(k))))
+
+
+def _int_form(a):
+    """an Int-sorted term equal to the Real-sorted term a when a is built from integer terms by + - * (None otherwise)"""
+    if z3.is_int(a):
+        return a
+    if z3.is_rational_value(a):
+        return z3.IntVal(a.numerator_as_long()) if a.denominator_as_long() == 1 else None
+    if not z3.is_app(a):
+        return None
+    k = a.decl().kind()
+    if k == z3.Z3_OP_TO_REAL:
+        return a.arg(0)
+    if k in (z3.Z3_OP_ADD, z3.Z3_OP_MUL, z3.Z3_OP_SUB, z3.Z3_OP_UMINUS):
+        kids = [_int_form(c) for c in a.children()]
+        if any(c is None for c in kids):
+            return None
+        if k == z3.Z3_OP_UMINUS:
+            return -kids[0]
+        r = kids[0]
+        for c in kids[1:]:
+            r = (r + c) if k == z3.Z3_OP_ADD else (r * c) if k == z3.Z3_OP_MUL else (r - c)
+        return r
+    return None
+
+
 def math_modf(interp, x):
     """math.modf(x) -> (fractional part, integral part), x = integral + fractional, integral = trunc(x).
     For x = sqrt(k) with k a non-negative integer (k < 2**52) the fractional part is zero exactly when k is a perfect square:
     in the engine sqrt of a perfect square is the exact rational root, every other root is c*sqrt(m) with m > 1 square-free,
-    which is irrational, hence has a non-zero fractional part (assumed: the correctly rounded float root of a non-square is not an integer)."""
+    which is irrational, hence has a non-zero fractional part (assumed: the correctly rounded float root of a non-square is not an integer).
+    For a symbolic integer term k the same statement is the assumed fact  (modf(sqrt(k))[0] == 0) <=> PSQ(k)  with the uninterpreted
+    predicate PSQ ("k is a perfect square"); over the reals it is a theorem (sqrt(k) is an integer iff k is a square), for floats it is
+    the assumption above."""
     from fractions import Fraction
 
     from pyvc.sv import _split_coeff, is_conc, norm, zr
@@ -66,10 +108,35 @@ def math_modf(interp, x):
         return (f - ip, Fraction(ip))
     ip = sv.to_real(sv.trunc(x))
     frac = sv.sub(x, ip)
-    q, rest = _split_coeff(z3.simplify(zr(x)))
+    xt = z3.simplify(zr(x))
+    q, rest = _split_coeff(xt)
     if rest is not None and z3.is_app(rest) and rest.decl().name() == "sqrt" and z3.is_rational_value(rest.arg(0)) and q != 0:
         cur().assume(sv.cmp("!=", frac, 0))
+    elif z3.is_app(xt) and xt.decl().name() == "sqrt":
+        k = _int_form(xt.arg(0))
+        if k is not None:
+            k = z3.simplify(k)
+            fact = sv.zb(sv.cmp("==", frac, 0)) == PSQ(k)
+            # (math.sqrt of a negative number raises: the fact speaks about k >= 0 only; a sum of squares is >= 0 by its form)
+            cur().assume(sv.SV(fact if _sum_of_squares(k) else z3.Implies(k >= 0, fact)))
     return (frac, ip)
+
+
+def _sum_of_squares(k):
+    """syntactically a sum of even powers with non-negative coefficients (hence >= 0 for all integer values)"""
+    if z3.is_int_value(k):
+        return k.as_long() >= 0
+    if z3.is_app(k) and k.decl().kind() == z3.Z3_OP_ADD:
+        return all(_sum_of_squares(c) for c in k.children())
+    if z3.is_app(k) and k.decl().kind() == z3.Z3_OP_MUL:
+        coef, count = 1, {}
+        for c in k.children():
+            if z3.is_int_value(c):
+                coef *= c.as_long()
+            else:
+                count[c.get_id()] = count.get(c.get_id(), 0) + 1
+        return coef >= 0 and all(v % 2 == 0 for v in count.values())
+    return False
 
 
 _reg0 = register
